@@ -119,11 +119,20 @@ type State struct {
 	panicVal   string
 	walks      int
 	gasCharged [][2]string
+	hookCalls  []HookCall
+	hookFailed bool
+}
+
+// HookCall records an invocation of the configured bridge hook.
+type HookCall struct {
+	Name   string
+	Bridge string
+	Cfg    TV
 }
 
 func (s *State) Clone() *State {
 	n := &State{pc: append([]string(nil), s.pc...), cells: make(map[int]Value, len(s.cells)), cellTy: s.cellTy,
-		stores: make(map[int]*Store, len(s.stores)), trace: append([]string(nil), s.trace...), recovering: s.recovering, panicVal: s.panicVal, walks: s.walks, gasCharged: append([][2]string(nil), s.gasCharged...)}
+		stores: make(map[int]*Store, len(s.stores)), trace: append([]string(nil), s.trace...), recovering: s.recovering, panicVal: s.panicVal, walks: s.walks, gasCharged: append([][2]string(nil), s.gasCharged...), hookCalls: append([]HookCall(nil), s.hookCalls...), hookFailed: s.hookFailed}
 	for k, v := range s.cells {
 		n.cells[k] = v
 	}
